@@ -145,6 +145,7 @@ m('C13', M, '\t\tme.current = e.id\n\t})', '\t\tme.current = me.future\n\t})', '
 m('C13', M, '\tif topA != nil {\n\t\tme.switchFromTo(c, topA)\n\t\treturn\n\t}', '\tif topA != nil && me.switchingDelay == 0 {\n\t\tme.switchFromTo(c, topA)\n\t\treturn\n\t}', 'switch to the top available endpoint only under a further, unrelated condition')
 m('C13', M, '\tif !exists {\n\t\tme.current = top.id\n\t}', '\tif !exists && me.switchingDelay == 0 {\n\t\tme.current = top.id\n\t}', 'gone current replaced only under a further, unrelated condition')
 m('C13', M, '\tif topA != nil {\n\t\tme.switchFromTo(c, topA)\n\t\treturn\n\t}', '\tif topA != nil {\n\t\tif me.switchingDelay == 0 {\n\t\t\tme.switchFromTo(c, topA)\n\t\t}\n\t\treturn\n\t}', 'the switch is skipped under an unrelated condition (and the function returns)')
+m('C13', M, '\t\tif _, ok := newEndpoints[e]; !ok {', '\t\tif _, ok := newEndpoints[e]; !ok || e == endpoints[0] {', 'a surviving endpoint (the one listed first) is removed and re-created: its state is lost (seed C13-14)')
 # ---------------- C14
 m('C14', M, '\tif ee.status != available {\n\t\treturn\n\t}\n', '\tif ee.status == unavailable {\n\t\treturn\n\t}\n', 'repeated unavailable reports extend the recovery window')
 m('C14', M, 'if me.switchingDelay == 0 || f == nil || f.status == unavailable {', 'if me.switchingDelay == 0 || f == nil || f.status != available {', 'immediate switch away from a recovering endpoint')
